@@ -351,3 +351,67 @@ def unit_torch_small(prop):
         return run_parallel("torch_small", jobs, to_case=torch_wrappers.to_case, replay_module="rtc.c14")
     unit.__name__ = "torch_small"
     return unit
+
+
+# ------------------------------------------------------------------------------------------ the torch tool's dataset: __init__ and __len__
+# The pipeline-construction slice (contracts/cli.py) hands the configured pipeline to this constructor and __getitem__ (contracts/cli.py)
+# reads the attributes: in between, every argument is stored unchanged under the attribute __getitem__ reads, the utterance table as the
+# tuple of the map's items in the map's own order; __len__ is the number of entries of that table.
+DATASET = "_FeatureProcessorDataset"
+DS_ATTRS = {"preprocessors": "preprocessors", "computer": "computer", "postprocessors": "postprocessors", "channel": "channel", "force_as": "force_as",
+            "seed": "seed", "utt2idx": "utt2idx"}
+
+
+def generate_dataset(prop, which):
+    from contracts.registry import run_contract
+    from contracts.torch_wrappers import h_super
+    if which == "len":
+        def setup_len(ex, st):
+            n = api.sym("n_utts")
+            st.assume(n >= 0)
+            api.mk_obj(st, "self", DATASET, {"utt_path": SeqVal(n, lambda j: (Opaque(("utt", j), "str"), Opaque(("path", j), "str")))})
+            ex.ctx = dict(n=n)
+        c = Contract(target=f"command_line:{DATASET}.__len__", uses=["A-PYSEM"], consts={"N": SpecFn(lambda ev: ev.ex.ctx["n"])},
+                     ensures=[("number_of_utterances_in_the_table", "result == N()")])
+        return run_contract(prop, ("command_line", f"{DATASET}.__len__"), c, [("", setup_len)], name="dataset", fname=f"{DATASET}.__len__")
+
+    def setup(ex, st):
+        api.mk_obj(st, "self", DATASET, {})
+        args = {p: Opaque("ARG_" + p, "arg") for p in list(DS_ATTRS.values()) + ["utt2path"]}
+        st.env.update(args)
+        st.env[DATASET] = Opaque(DATASET, "class")
+        ex.ctx = dict(args=args)
+
+    def h_items(ex, st, o, args, kwargs, node, ev):
+        if isinstance(o, Opaque) and o.term == "ARG_utt2path" and not args and not kwargs:
+            return Opaque("ITEMS_OF_THE_MAP", "items")
+        raise Outside(".items() of something other than the utterance map")
+
+    def h_tuple(ex, st, args, kwargs, node, ev):
+        if len(args) == 1 and isinstance(args[0], Opaque) and args[0].term == "ITEMS_OF_THE_MAP":
+            return Opaque("TUPLE_OF_ITEMS_OF_THE_MAP", "tuple")
+        raise Outside("tuple() of something other than the map's items")
+
+    def stored(ev):
+        f = {k[1]: v for k, v in ev.st.fields.items() if k[0] == "self"}
+        if set(f) != set(DS_ATTRS) | {"utt_path"}:
+            return False
+        if not all(f[a] is ev.ex.ctx["args"][p] for a, p in DS_ATTRS.items()):
+            return False
+        up = f["utt_path"]
+        return isinstance(up, Opaque) and up.term == "TUPLE_OF_ITEMS_OF_THE_MAP"
+
+    c = Contract(target=f"command_line:{DATASET}.__init__", uses=["A-PYSEM"], consts={"STORED": SpecFn(stored)},
+                 handlers={"super": h_super, "opaque.__init__": lambda ex, st, o, args, kwargs, node, ev: None, "opaque.items": h_items, "tuple": h_tuple},
+                 ensures=[("every_argument_stored_unchanged_table_is_the_maps_items_in_order", "STORED()")])
+    return run_contract(prop, ("command_line", f"{DATASET}.__init__"), c, [("", setup)], name="dataset", fname=f"{DATASET}.__init__")
+
+
+def unit_dataset(prop):
+    def unit(tier, known):
+        from contracts.registry import run_parallel
+        from contracts import cli
+        jobs = [("contracts.accessors", "generate_dataset", (prop, w)) for w in ("init", "len")]
+        return run_parallel("dataset", jobs, to_case=cli._to_case_plan("rtc." + prop.lower()), replay_module="rtc." + prop.lower())
+    unit.__name__ = "dataset"
+    return unit
